@@ -1,12 +1,60 @@
 (* C20 — the documented language is accepted, and layout does not change meaning.
-   PARTIAL at this stage.  The full statement quantifies over all layouts of all well-typed
-   programs; proved so far are its building blocks on the character-level parser model: runs
-   of space/tab/CR/LF before any form and after any expression are irrelevant, every spelling
-   of every operator is recognised whatever follows it, a newline-terminated comment before an
-   event or among the statements of an event changes neither the instructions nor the scope.
-   The layout-variant stream compares images and scopes of 8 (quick) / 40 (thorough) random
-   layouts per generated program.  Proofs: Portus.Lang.LayoutFacts. *)
-From Portus Require Import Image LayoutFacts.
+   PROVED for the parser and for layout invariance.  The remaining half of the first sentence
+   (a well-typed program within the register limits is also accepted by lowering and by the
+   encoder) is not a theorem here: C01 proves what an accepted program means, C10 that lowering
+   and encoding never panic; that they accept every well-typed program within the limits is
+   checked by the c20/compile/limits streams (accepted fraction reported in the evidence).
+
+   The documented grammar is the relation lay_prog (Portus.Lang.Layout): an abstract program
+   (declarations before/inside/after an optional Report block, with volatile markers; one or
+   more events, each a condition and one or more statements built from literals, names, the
+   sixteen operators and the two commands) and a text that lays it out with ANY runs of
+   space/tab/CR/LF between tokens (empty wherever two tokens cannot fuse), EITHER spelling of
+   each operator, an optional newline-terminated comment before each event and any number of
+   comments among the statements of each event.
+     C20_grammar_parses        every layout of every abstract program is parsed, with the fuel
+                               new_with_scope uses, to exactly that program (comments as empty
+                               statements);
+     C20_layouts_compile_alike any two layouts of one abstract program give the same compile
+                               result and the same serialized image and scope, whatever that
+                               result is (Ok, or the same error);
+     C20_compile_is_a_function_of_the_program  the result is compile_aprog ap, which does not
+                               mention the text.
+   Compiling the same text twice is the same term in a pure model; the c20 stream checks it
+   (and 8/40 random layouts per generated program) on the real compiler.
+   Proofs: Portus.Lang.Layout, Portus.Lang.LayoutFacts; non-vacuity: Portus.Lang.LayoutExample. *)
+From Portus Require Import Image LayoutFacts Layout LayoutExample EndToEnd.
+
+Definition C20_layout_statement : Prop :=
+  forall ap t1 t2 src1 src2 ups,
+    lay_prog ap t1 -> lay_prog ap t2 -> utf8_decode src1 = Some t1 -> utf8_decode src2 = Some t2 ->
+    (compile src1 ups = compile src2 ups) /\ (compile_and_serialize src1 ups = compile_and_serialize src2 ups).
+
+Theorem C20_layouts_compile_alike : C20_layout_statement.
+Proof. exact layouts_compile_alike. Qed.
+Print Assumptions C20_layouts_compile_alike.
+
+Theorem C20_grammar_parses : forall ap t, lay_prog ap t ->
+  exists evs rest, p_defs (parse_fuel t) t = POk (decls_of (ap_d1 ap) (ap_rep ap) (ap_d2 ap)) rest /\
+                   p_events (parse_fuel t) rest = POk evs [] /\ map strip_event evs = ap_events ap.
+Proof. exact grammar_parses. Qed.
+Print Assumptions C20_grammar_parses.
+
+Theorem C20_compile_is_a_function_of_the_program : forall ap t src ups,
+  lay_prog ap t -> utf8_decode src = Some t -> compile src ups = compile_aprog ap ups.
+Proof. exact compile_layout. Qed.
+Print Assumptions C20_compile_is_a_function_of_the_program.
+
+(* every expression layout is parsed to its expression, given enough fuel and a following
+   character that cannot extend a name or numeral *)
+Theorem C20_expression_layouts_parse : forall e t, lay_expr e t -> forall f rest, (length t < f)%nat -> follow_ok e rest ->
+  p_expr f (t ++ rest) = POk e (skip_ws rest).
+Proof. exact p_expr_lay. Qed.
+Print Assumptions C20_expression_layouts_parse.
+
+(* non-vacuity: the compact and the spread-out text below are layouts of one abstract program *)
+Example C20_example_layouts : lay_prog ex_prog text_a /\ lay_prog ex_prog text_b /\ text_a <> text_b.
+Proof. split; [exact lay_a|split; [exact lay_b|discriminate]]. Qed.
 
 Theorem C20_whitespace_before_expression : forall f w i, all_ws w -> p_expr f (w ++ i) = p_expr f i.
 Proof. exact expr_leading_ws. Qed.
